@@ -1,7 +1,8 @@
 """Statement-level control-flow graph for one function body + path queries.
 
 Node kinds: entry, exit (normal return / fall off the end), raise (abnormal exit),
-stmt (simple statement), test (if/while condition), for (iterator step), with, try,
+stmt (simple statement), test (one atomic, polarity-normalised part of an if/while condition; the
+short-circuit structure of and/or/not is expressed by edges), loop (while head), for (iterator step), with, try,
 except (handler entry), def (nested function/class definition).
 
 Queries are phrased as reachability with a set of nodes removed, which directly encodes
@@ -16,7 +17,7 @@ from typing import Callable, Dict, Iterable, Iterator, List, Optional, Sequence,
 
 
 class Node:
-    __slots__ = ("idx", "kind", "stmt", "exprs", "label")
+    __slots__ = ("idx", "kind", "stmt", "exprs", "label", "raw", "neg")
 
     def __init__(self, idx, kind, stmt=None, exprs=(), label=""):
         self.idx = idx
@@ -24,6 +25,8 @@ class Node:
         self.stmt = stmt  # the ast statement this node came from (may be compound)
         self.exprs: Tuple[ast.AST, ...] = tuple(exprs)  # what is evaluated at this node
         self.label = label
+        self.raw = None  # test nodes: the source expression of this atom (before polarity normalisation)
+        self.neg = False  # test nodes: the source atom was the negation of exprs[0] (edge labels refer to exprs[0])
 
     @property
     def lineno(self):
@@ -45,6 +48,8 @@ class Node:
             return "except " + (ast.unparse(self.stmt.type) if self.stmt.type else "")
         if self.kind == "try":
             return "try"
+        if self.kind == "loop":
+            return "while " + ast.unparse(self.stmt.test)
         if self.kind == "def":
             return f"def {self.stmt.name}"
         return ast.unparse(self.stmt).split("\n")[0]
@@ -72,6 +77,56 @@ def const_truth(e: ast.AST) -> Optional[bool]:
         v = const_truth(e.operand)
         return None if v is None else not v
     return None
+
+
+_NEG_OPS = {ast.NotIn: ast.In, ast.NotEq: ast.Eq, ast.IsNot: ast.Is}
+
+
+def _is_len_call(e: ast.AST) -> bool:
+    return isinstance(e, ast.Call) and isinstance(e.func, ast.Name) and e.func.id == "len" and len(e.args) == 1 and not e.keywords
+
+
+def _int_const(e: ast.AST) -> Optional[int]:
+    if isinstance(e, ast.Constant) and isinstance(e.value, int) and not isinstance(e.value, bool):
+        return e.value
+    return None
+
+
+def polarity(e: ast.AST) -> Tuple[ast.AST, bool]:
+    """(positive atom, negated?) of an atomic condition.  `a not in b`, `a != b`, `a is not b`, `not a` are the
+    negations of `a in b`, `a == b`, `a is b`, `a`; comparisons of len(x) with small integer constants are mapped to
+    the two canonical atoms `len(x)` (non-empty) and `len(x) > n`."""
+    neg = False
+    while isinstance(e, ast.UnaryOp) and isinstance(e.op, ast.Not):
+        e, neg = e.operand, not neg
+    if isinstance(e, ast.Compare) and len(e.ops) == 1:
+        op, l, r = e.ops[0], e.left, e.comparators[0]
+        if type(op) in _NEG_OPS:
+            e = ast.copy_location(ast.Compare(left=l, ops=[_NEG_OPS[type(op)]()], comparators=[r]), e)
+            neg = not neg
+            op = e.ops[0]
+        if _is_len_call(r) and _int_const(l) is not None and type(op) in (ast.Gt, ast.GtE, ast.Lt, ast.LtE, ast.Eq):
+            # mirror  n OP len(x)  ->  len(x) OP' n
+            mop = {ast.Gt: ast.Lt, ast.GtE: ast.LtE, ast.Lt: ast.Gt, ast.LtE: ast.GtE, ast.Eq: ast.Eq}[type(op)]()
+            e = ast.copy_location(ast.Compare(left=r, ops=[mop], comparators=[l]), e)
+            op, l, r = mop, r, l
+        if _is_len_call(l) and _int_const(r) is not None:
+            n = _int_const(r)
+            # len(x) OP n  ->  (threshold t, negated) meaning  [not] len(x) > t
+            m = {ast.Gt: (n, False), ast.GtE: (n - 1, False), ast.Lt: (n - 1, True), ast.LtE: (n, True)}.get(type(op))
+            if m is None and isinstance(op, ast.Eq) and n == 0:
+                m = (0, True)
+            if m is not None and m[0] >= 0:
+                t, ng = m
+                atom = l if t == 0 else ast.copy_location(ast.Compare(left=l, ops=[ast.Gt()], comparators=[ast.Constant(value=t)]), e)
+                return atom, neg != ng
+            if m is not None and m[0] < 0:
+                # len(x) > -1 (always true) / len(x) < 0 (always false)
+                return ast.copy_location(ast.Constant(value=True), e), neg != m[1]
+    if isinstance(e, ast.Compare) and len(e.ops) == 1 and isinstance(e.ops[0], (ast.Gt, ast.GtE)) and not _is_len_call(e.left):
+        mop = ast.Lt() if isinstance(e.ops[0], ast.Gt) else ast.LtE()
+        e = ast.copy_location(ast.Compare(left=e.comparators[0], ops=[mop], comparators=[e.left]), e)
+    return e, neg
 
 
 class CFG:
@@ -124,29 +179,57 @@ class CFG:
         """Where an exception raised at this point goes."""
         return list(ctx.handlers) if ctx.handlers else [ctx.raise_to]
 
+    def _cond(self, e, frm, ctx, st) -> Tuple[List[Tuple[int, str]], List[Tuple[int, str]]]:
+        """Short-circuit decomposition of a condition into atomic, polarity-normalised test nodes.
+        Returns (edges taken when the condition is true, edges taken when it is false)."""
+        if isinstance(e, ast.BoolOp):
+            cur, other = list(frm), []
+            for v in e.values:
+                t, f = self._cond(v, cur, ctx, st)
+                if isinstance(e.op, ast.And):
+                    other += f
+                    cur = t
+                else:
+                    other += t
+                    cur = f
+                if not cur:
+                    break
+            return (cur, other) if isinstance(e.op, ast.And) else (other, cur)
+        if isinstance(e, ast.UnaryOp) and isinstance(e.op, ast.Not) and isinstance(e.operand, (ast.BoolOp, ast.UnaryOp)):
+            t, f = self._cond(e.operand, frm, ctx, st)
+            return f, t
+        atom, neg = polarity(e)
+        truth = const_truth(atom)
+        if truth is not None:
+            truth = truth != neg
+            return (list(frm), []) if truth else ([], list(frm))
+        n = self._new("test", st, [atom])
+        n.raw, n.neg = e, neg
+        self._link(frm, n.idx)
+        self._implicit_exc(n, ctx)
+        t, f = [(n.idx, "T")], [(n.idx, "F")]
+        return (f, t) if neg else (t, f)
+
     def _stmt(self, st, frm, ctx) -> List[Tuple[int, str]]:
         if isinstance(st, ast.If):
-            t = self._new("test", st, [st.test])
-            self._link(frm, t.idx)
-            self._implicit_exc(t, ctx)
-            truth = const_truth(st.test)
+            t_out, f_out = self._cond(st.test, frm, ctx, st)
             out = []
-            if truth is not False:
-                out += self._seq(st.body, [(t.idx, "T")], ctx)
-            if truth is not True:
-                out += self._seq(st.orelse, [(t.idx, "F")], ctx) if st.orelse else [(t.idx, "F")]
+            if t_out:
+                out += self._seq(st.body, t_out, ctx)
+            if f_out:
+                out += self._seq(st.orelse, f_out, ctx) if st.orelse else f_out
             return out
         if isinstance(st, ast.While):
-            t = self._new("test", st, [st.test])
-            self._link(frm, t.idx)
-            self._implicit_exc(t, ctx)
-            lctx = ctx.loop(t.idx)
-            truth = const_truth(st.test)
-            body_out = self._seq(st.body, [(t.idx, "T")], lctx) if truth is not False else []
-            self._link(body_out, t.idx)
+            # loop head: a join node so that `continue` and the back edge have one target
+            h = self._new("loop", st, [])
+            self._link(frm, h.idx)
+            lctx = ctx.loop(h.idx)
+            t_out, f_out = self._cond(st.test, [(h.idx, "")], ctx, st)
+            body_out = self._seq(st.body, t_out, lctx) if t_out else []
+            self._link(body_out, h.idx)
             out = []
-            if truth is not True:
-                out += self._seq(st.orelse, [(t.idx, "F")], ctx) if st.orelse else [(t.idx, "F")]
+            if f_out:
+                out += self._seq(st.orelse, f_out, ctx) if st.orelse else f_out
             out += lctx.breaks
             return out
         if isinstance(st, (ast.For, ast.AsyncFor)):
@@ -295,6 +378,99 @@ class CFG:
                 todo.append(b)
         return seen
 
+    # -- path-sensitive variant: a path may not take contradictory out-edges of two tests of the same atom
+    def _atom_info(self):
+        if getattr(self, "_ainfo", None) is None:
+            keys: Dict[int, str] = {}
+            count: Dict[str, int] = {}
+            for n in self.nodes:
+                if n.kind == "test":
+                    k = " ".join(ast.unparse(n.exprs[0]).split())
+                    keys[n.idx] = k
+                    count[k] = count.get(k, 0) + 1
+            tracked = {k for k, c in count.items() if c > 1}
+            pure: Dict[str, bool] = {}
+            names: Dict[str, Set[str]] = {}
+            for n in self.nodes:
+                if n.kind == "test" and keys[n.idx] in tracked and keys[n.idx] not in pure:
+                    e = n.exprs[0]
+                    k = keys[n.idx]
+                    names[k] = {x.id for x in ast.walk(e) if isinstance(x, ast.Name)}
+                    imp = False
+                    for x in ast.walk(e):
+                        if isinstance(x, (ast.Attribute, ast.Subscript, ast.NamedExpr)):
+                            imp = True
+                        elif isinstance(x, ast.Call) and not (isinstance(x.func, ast.Name) and x.func.id in ("isinstance", "len", "callable", "issubclass")):
+                            imp = True
+                    pure[k] = not imp
+            kills: Dict[int, Tuple[Set[str], bool]] = {}
+            for n in self.nodes:
+                if n.kind in ("stmt", "for", "with", "def", "except") or (n.kind == "test" and any(isinstance(x, ast.NamedExpr) for x in ast.walk(n.exprs[0]))):
+                    stored: Set[str] = set()
+                    eff = False
+                    roots = [e for e in n.exprs if e is not None]
+                    if n.kind == "def" and n.stmt is not None:
+                        stored.add(n.stmt.name)
+                    if n.kind == "except" and n.stmt is not None and getattr(n.stmt, "name", None):
+                        stored.add(n.stmt.name)
+                    for r in roots:
+                        for x in walk_local(r):
+                            if isinstance(x, ast.Name) and isinstance(x.ctx, (ast.Store, ast.Del)):
+                                stored.add(x.id)
+                            elif isinstance(x, (ast.Call, ast.Delete, ast.Await, ast.Yield, ast.YieldFrom)):
+                                eff = True
+                            elif isinstance(x, (ast.Attribute, ast.Subscript)) and isinstance(x.ctx, (ast.Store, ast.Del)):
+                                eff = True
+                    if n.kind == "for" and n.stmt is not None:
+                        stored |= {x.id for x in ast.walk(n.stmt.target) if isinstance(x, ast.Name)}
+                        eff = True
+                    if n.kind == "with":
+                        eff = True
+                    kills[n.idx] = (stored, eff)
+            self._ainfo = (keys, tracked, pure, names, kills)
+        return self._ainfo
+
+    def reach_consistent(self, src: Iterable[int], avoid: Iterable[int] = (), labels_block: Iterable[Tuple[int, str]] = (), start_edges: Iterable[Tuple[int, str]] = ()) -> Set[int]:
+        """Like reach, but a path never takes the T edge of one test and the F edge of another test of the *same
+        atom* unless something in between may have changed the atom's value (a store to one of its names, or any
+        call / delete / attribute or item store when the atom reads attributes, items or calls)."""
+        keys, tracked, pure, names, kills = self._atom_info()
+        avoid = set(avoid)
+        block = set(labels_block)
+        start = [(s, frozenset()) for s in src]
+        for t, lab in start_edges:
+            for b, l in self.succ[t]:
+                if l == lab and b not in avoid:
+                    key = keys.get(t)
+                    start.append((b, frozenset({(key, lab)}) if key in tracked else frozenset()))
+        if not tracked:
+            return self.reach([s for s, _ in start], avoid, labels_block)
+        seen = set(start)
+        todo = list(start)
+        out: Set[int] = {s for s, _ in start}
+        while todo:
+            a, env = todo.pop()
+            k = kills.get(a)
+            if k is not None and env:
+                stored, eff = k
+                env = frozenset((key, lab) for key, lab in env if not (names[key] & stored) and not (eff and not pure[key]))
+            for b, lab in self.succ[a]:
+                if (a, lab) in block or b in avoid:
+                    continue
+                env2 = env
+                key = keys.get(a)
+                if key in tracked and lab in ("T", "F"):
+                    if (key, "F" if lab == "T" else "T") in env:
+                        continue  # contradicts an earlier outcome of the same atom
+                    env2 = env | {(key, lab)}
+                st = (b, env2)
+                if st in seen:
+                    continue
+                seen.add(st)
+                out.add(b)
+                todo.append(st)
+        return out
+
     def every_path_passes(self, through: Iterable[int], dst: int, src: Optional[int] = None, src_label: Optional[str] = None) -> bool:
         """True iff every path from src (default entry; optionally only its out-edges labelled src_label)
         to dst passes a node of `through`."""
@@ -314,6 +490,13 @@ class CFG:
         """Every path from entry to `node` takes the out-edge of `test` labelled `label`
         (robust in loops, unlike 'not reachable from the other branch')."""
         return node not in self.reach([self.entry], labels_block=[(test, label)])
+
+    def edges_dominate(self, edges: Iterable[Tuple[int, str]], node: int, src: Optional[int] = None) -> bool:
+        """Every path from src (default entry) to `node` takes at least one of the given (test, label) out-edges."""
+        return node not in self.reach([self.entry if src is None else src], labels_block=list(edges))
+
+    def other(self, label: str) -> str:
+        return {"T": "F", "F": "T"}[label]
 
     def find_path(self, dst: int, avoid: Iterable[int] = (), src: Optional[int] = None, src_label: Optional[str] = None) -> Optional[List[int]]:
         """Some path src -> dst avoiding `avoid` (for diagnostics)."""
